@@ -35,6 +35,13 @@ StoryHdr(x, v) == << Leaf("storyID", x, "="),
 (* a story with two items and a paragraph (story-level shapes)            *)
 StoryN(x, v) == Nd("story", x, None,
                    StoryHdr(x, v) \o << ItemN("I1", x, v), ParaN(x, 1), ItemN("I2", x, v) >>)
+(* the same without any timing metadata (no mosExternalMetadata at all)   *)
+StoryNT(x) == Nd("story", x, None,
+                 << Leaf("storyID", x, "="), Leaf("storySlug", None, "x:slug." \o x \o "-nt"),
+                    ItemN("I1", x, "-nt"), ParaN(x, 1) >>)
+(* a story whose storyID tag is blank                                      *)
+StoryBlank == Nd("story", None, None,
+                 StoryHdr(None, "") \o << ItemN("I1", "SB", ""), ParaN("SB", 1) >>)
 
 (* a story with items I1..n (item-level shapes)                           *)
 RECURSIVE ItemRun(_, _, _, _)
@@ -52,11 +59,17 @@ Lead == << Leaf("roID", RoIdC, "="), Leaf("roSlug", None, "x:roSlug"),
 Between  == Leaf("roTrigger", None, "x:between")
 Trailing == Leaf("mosExternalMetadata", "sch.ro", "x:trailing")
 
+(* layouts: "plain" | "between" | "trailing" | "both" (where metadata sits) *)
+(*          "nt1" / "nt2": the first / second story has no timing metadata  *)
+(*          "blank": the last story's storyID is blank                      *)
 RECURSIVE StoryRun(_, _, _)
-StoryRun(i, n, between) ==
+StoryRun(i, n, lay) ==
   IF i > n THEN <<>>
-  ELSE <<StoryN(SId(i), "")>> \o (IF between /\ i = 1 THEN <<Between>> ELSE <<>>)
-       \o StoryRun(i+1, n, between)
+  ELSE << IF (lay = "nt1" /\ i = 1) \/ (lay = "nt2" /\ i = 2) THEN StoryNT(SId(i))
+          ELSE IF lay = "blank" /\ i = n THEN StoryBlank
+          ELSE StoryN(SId(i), "") >>
+       \o (IF lay \in {"between", "both"} /\ i = 1 THEN <<Between>> ELSE <<>>)
+       \o StoryRun(i+1, n, lay)
 
 Root == << Leaf("mosID", None, "x:mosID"), Leaf("ncsID", None, "x:ncsID"),
            Leaf("messageID", "1000", "="), Leaf("roCreate", None, None) >>
@@ -65,7 +78,7 @@ Root == << Leaf("mosID", None, "x:mosID"), Leaf("ncsID", None, "x:ncsID"),
 ShapeS(n, lay) ==
   [root |-> Root,
    kids |-> Lead \o (IF n = 0 /\ lay \in {"between", "both"} THEN <<Between>> ELSE <<>>)
-                 \o StoryRun(1, n, lay \in {"between", "both"})
+                 \o StoryRun(1, n, lay)
                  \o (IF lay \in {"trailing", "both"} THEN <<Trailing>> ELSE <<>>)]
 
 (* item-level shape: S1 with n items, then S2 with the SAME item ids      *)
@@ -98,18 +111,24 @@ Msg(cls, story, item, ids, carried) ==
   [cls |-> cls, story |-> story, item |-> item, ids |-> ids, carried |-> carried,
    stok |-> None, hdr |-> <<>>, bodyPos |-> 0, body |-> <<>>]
 
-SRefs(K)  == { RefId(x) : x \in IdSet(K, "story") } \cup { RefId(UnknownS), RefBlank }
-IRefs(S)  == { RefId(x) : x \in IdSet(S, "item") }  \cup { RefId(UnknownI), RefBlank }
+SRefs(K)  == { RefId(x) : x \in IdSet(K, "story") \ {None} } \cup { RefId(UnknownS), RefBlank }
+IRefs(S)  == { RefId(x) : x \in IdSet(S, "item") \ {None} }  \cup { RefId(UnknownI), RefBlank }
 
 (* carried stories: fresh ones, in order N1 N2 ..; optionally one that    *)
 (* duplicates an existing story (variant content)                         *)
 FreshStories(K, k) ==
   LET f == FreshFrom(FreshPoolS, IdSet(K, "story")) IN [i \in 1..k |-> StoryN(f[i], "")]
+RealIds(K) == IdSet(K, "story") \ {None}
 CarriedStories(K) ==
   { FreshStories(K, k) : k \in 1..MaxCarried }
-  \cup { <<StoryN(x, "'")>> \o FreshStories(K, k) : x \in IdSet(K, "story"), k \in 0..(MaxCarried-1) }
+  \cup { <<StoryNT(FreshFrom(FreshPoolS, IdSet(K, "story"))[1])>> }                  \* a story without timing
+  \cup (IF MaxCarried >= 3                                                          \* two duplicates in one message
+        THEN { <<StoryN(x, "'"), StoryN(y, "'")>> \o FreshStories(K, 1) : x, y \in RealIds(K) }
+             \cup { <<StoryN(x, "'")>> \o FreshStories(K, 1) \o <<StoryN(y, "'")>> : x, y \in RealIds(K) }
+        ELSE {})
+  \cup { <<StoryN(x, "'")>> \o FreshStories(K, k) : x \in RealIds(K), k \in 0..(MaxCarried-1) }
   \cup { FreshStories(K, 1) \o <<StoryN(x, "'")>> \o SubSeq(FreshStories(K, k+1), 2, k+1) :
-            x \in IdSet(K, "story"), k \in 0..(MaxCarried-2) }
+            x \in RealIds(K), k \in 0..(MaxCarried-2) }
 FreshItems(S, k) ==
   LET f == FreshFrom(FreshPoolI, IdSet(S, "item")) IN [i \in 1..k |-> ItemN(f[i], "msg", "")]
 CarriedItems(S) == { FreshItems(S, k) : k \in 1..MaxCarried }
@@ -126,7 +145,9 @@ SendMsgs(K) ==
       b \in { <<>>,
               << Leaf("storyItem", "I9", "x:senditem") >>,
               << Leaf("p", None, "x:sendp1"), Leaf("storyItem", "I9", "x:senditem"),
-                 Leaf("p", None, "x:sendp2"), Leaf("storyItem", "I8", "x:senditem2") >> } }
+                 Leaf("p", None, "x:sendp2"), Leaf("storyItem", "I8", "x:senditem2") >>,
+              << Leaf("p", None, "e:empty"), Leaf("storyItem", "I9", "x:senditem"),
+                 Leaf("p", None, "w:blank"), Leaf("p", None, "e:empty"), Leaf("storyTag", None, "x:other") >> } }
 
 StoryMsgs(cls, K) ==
   CASE cls = "StorySend"   -> SendMsgs(K)
